@@ -135,6 +135,10 @@ def run(ctx):
     if f is not None:
         eof_or_partial(ctx, "C12.R4", f, allow_zero=False)
 
+    ctx.rule("C12.R9", "digesting AsyncRead wrapper (async CRAM CrcReader digests the whole filled part): no accumulating read future "
+                       "(read_exact / read_buf / read_to_end) is polled on it")
+    digesting_wrapper_rule(ctx, "C12.R9", 1)
+
     ctx.rule("C12.R5", "line readers: LF/CR popped only after read_until/read_line and on the ends_with edge")
     n = 0
     for k, f in sorted(fb.fns.items()):
@@ -270,3 +274,87 @@ def _root_var(f, op, depth=0):
             continue
         return l
     return l
+
+
+# ------------------------------------------------------------------------------------------------ digesting AsyncRead wrappers
+ACCUM_READ_RX = re.compile(r"AsyncReadExt::(read_exact|read_buf|read_to_end|read_to_string)$|AsyncBufReadExt::(read_until|read_line)$")
+
+
+def digesting_wrapper_rule(ctx, rule, floor):
+    """An AsyncRead wrapper whose poll_read post-processes `buf.filled()` as a whole (the async CRAM CrcReader feeds it to the CRC)
+    is only right when every poll arrives with a fresh ReadBuf. tokio's single-value futures (read_u8, read_i32_le ..) create one
+    per poll; read_exact / read_buf / read_to_end keep ONE ReadBuf across polls, so after a short read the bytes of the earlier
+    polls are digested again. Rule: while the wrapper digests the whole filled part, no function that is handed the wrapper may call
+    an accumulating read on it (followed through the workspace callees that receive the reader)."""
+    from .. import a10
+    fb = ctx.fb
+    wrappers = []
+    for k, f in sorted(fb.fns.items()):
+        if not f.blocks or (f.trait_item or "").split("::")[-1] != "poll_read" or not k.startswith("<noodles_"):
+            continue
+        calls = list(f.calls())
+        filled = [b for b, c in calls if re.search(r"ReadBuf::<'.>::filled$|ReadBuf::filled$|ReadBuf<'_>::filled$", c.get("f") or "") or
+                  ((c.get("f") or "").endswith("::filled") and "ReadBuf" in (c.get("f") or ""))]
+        inner = [b for b, c in calls if (c.get("f") or "").endswith("::poll_read")]
+        if not filled or not inner:
+            continue
+        ctx.saw_fn(f)
+        before = [b for b in filled if any(i in C.reachable(f, b) for i in inner) and not any(b in C.reachable(f, i) for i in inner)]
+        slices = [b for b, c in calls if re.search(r"ops::index::Index(Mut)?<.*>>::index(_mut)?$|::split_at|::get$", c.get("f") or "")]
+        whole = not before and not slices
+        wrappers.append((f, whole))
+    ctx.floor(rule, "AsyncRead wrappers that post-process the filled part of the ReadBuf", len(wrappers), floor)
+    for w, whole in wrappers:
+        ty = (w.impl_self or "").split("<")[0].split("::")[-1]
+        if not whole:
+            ctx.ok(rule, w.key, "takes the filled length before the inner poll (or slices): digests only the new bytes; callers may use any read", w.loc())
+            continue
+        # functions that receive the wrapper
+        work = []
+        for k, f in sorted(fb.fns.items()):
+            if not f.blocks:
+                continue
+            lf = a10.logical(fb, f)
+            for i in range(1, lf.argc + 1):
+                if re.search(r"\b%s<" % re.escape(ty), lf.locals[i] if not f.coro else lf.locals[i]):
+                    work.append((f, i))
+        seen = set()
+        bad = []
+        nfn = 0
+        coro_of = {}
+        for h in fb.fns.values():
+            if h.coro and h.parent and h.blocks:
+                coro_of.setdefault(h.parent, []).append(h)
+        while work:
+            f, pi = work.pop()
+            if (f.key, pi) in seen or len(seen) > 400:
+                continue
+            seen.add((f.key, pi))
+            nfn += 1
+            ctx.saw_fn(f)
+            bd = a10.Body(fb, f)
+            for bi, c in f.calls():
+                fk = c.get("f") or ""
+                hit = [j for j, a in enumerate(c["args"]) if (lambda pt: pt is not None and pt[0] == ("p", pi))(bd.pointee(a))]
+                if not hit:
+                    continue
+                if ACCUM_READ_RX.search(fk) and 0 in hit:
+                    bad.append((f, bi, fk))
+                    continue
+                g = fb.fns.get(fk)
+                if g is None:
+                    continue
+                bodies = [g] if g.blocks else []
+                coro = coro_of.get(g.key, [])
+                for h in (coro or bodies):
+                    for j in hit:
+                        work.append((h, j + 1))
+        if bad:
+            for f, bi, fk in bad:
+                ctx.violation(rule, "%s/accumulating-read-through-digesting-wrapper/%s/%s" % (rule, a10.logical(fb, f).key, fk.split("::")[-1]),
+                              "%s calls %s on a reader that can be %s, whose poll_read digests the WHOLE filled part of the ReadBuf: %s keeps one "
+                              "ReadBuf across polls, so after a short read the earlier bytes are digested twice and the checksum depends on how "
+                              "the source chunks its reads" % (a10.logical(fb, f).key, fk.split("::")[-1], ty, fk.split("::")[-1]), f.loc(bi))
+        else:
+            ctx.ok(rule, w.key, "digests buf.filled() as a whole; none of the %d function bodies that are handed a %s performs an accumulating "
+                                "read (read_exact / read_buf / read_to_end ..) on it" % (nfn, ty), w.loc())
